@@ -301,11 +301,11 @@ def read_env(src, expr, skip_envs=(), tolerance=0, mode=MODE_NON_MATH):
 
 
 def read_env_end(src, tolerance=0, mode=MODE_NON_MATH):
-    r"""Read a command name and, if one follows, a single brace group.
+    r"""Read a command name and, for ``\end``, the brace group that follows.
 
     Used to recognize and to consume ``\end{name}``: nothing beyond the name
-    group belongs to the end of an environment. Assumes the escape has not
-    been parsed yet.
+    group belongs to the end of an environment, and the arguments of any other
+    command are left alone. Assumes the escape has not been parsed yet.
 
     :param Buffer src: a buffer of tokens
     :param int tolerance: error tolerance level (only supports 0 or 1)
@@ -313,6 +313,8 @@ def read_env_end(src, tolerance=0, mode=MODE_NON_MATH):
     :return: command name and a list with at most one brace group
     """
     name, args = read_command(src, 0, 0, skip=1, tolerance=tolerance, mode=mode)
+    if name != 'end':
+        return name, args
     spacer = read_spacer(src)
     if src.hasNext() and src.peek().category == TC.GroupBegin:
         args.append(read_arg(src, next(src), tolerance=tolerance, mode=mode))
